@@ -246,7 +246,7 @@ func checkC05(c *Ctx) {
 			mnc := root.Digits(2 + root.Intn(2))
 			mcc := root.Digits(3)
 			p := map[string]interface{}{"k": hexCase(root, k), "op": hexCase(root, op), "opc": hexCase(root, opc), "rand": hex.EncodeToString(rnd), "sqn": hex.EncodeToString(sqn), "amf": hex.EncodeToString(amf),
-				"mcc": mcc, "mnc": mnc, "imsi": mcc + mnc + root.Digits(root.Range(1, 12-len(mnc))), "nea": float64((i + q) % 4), "nia": float64(((i + q) / 4) % 4)}
+				"mcc": mcc, "mnc": mnc, "imsi": mcc + mnc + root.Digits(supiTail(root, len(mnc))), "nea": float64((i + q) % 4), "nia": float64(((i + q) / 4) % 4)}
 			if root.Chance(1, 2) {
 				p["opc"] = ""
 			} else if root.Chance(1, 2) {
@@ -270,6 +270,22 @@ func checkC05(c *Ctx) {
 		}
 	})
 	c.sigs = shapes
+}
+
+// supiTail draws the number of digits after MCC+MNC so that SUPI lengths 5..15 are all reached,
+// the two ends of the range (5 digits: nothing after a 2-digit MNC; 15 digits) with extra weight.
+func supiTail(r *kernel.Rand, mncLen int) int {
+	lo, hi := 5-3-mncLen, 12-mncLen
+	if lo < 0 {
+		lo = 0
+	}
+	switch r.Intn(6) {
+	case 0:
+		return lo
+	case 1:
+		return hi
+	}
+	return r.Range(lo, hi)
 }
 
 type pendingViol struct {
